@@ -3,7 +3,7 @@ G11 (possibly-deferred values used only the way deferreds can be used)."""
 import ast
 
 from ..engine import flow, callgraph
-from ..engine.loader import Unknown, norm_text, walk_local, FUNC_TYPES
+from ..engine.loader import Unknown, norm_text, walk_local, FUNC_TYPES, public_qual
 from . import guards
 
 # ---------------------------------------------------------------------------------------- G2
@@ -100,7 +100,7 @@ def is_parser_function(repo, q, fn):
 # existing assert does not raise an alarm. A function may hold as many such sites as it has entries; one more is new.
 TABLE_BY_SITE = {}
 for (_q, _e, _g), _v in TABLE.items():
-    TABLE_BY_SITE.setdefault((_q, _e), []).append(_v)
+    TABLE_BY_SITE.setdefault((public_qual(_q), _e), []).append(_v)
 
 
 # functions holding several sites of one tabled kind (confirmed by reading: five type guards, the maybe/result asserts,
@@ -118,8 +118,9 @@ def rule_G2(ck):
     used = set()
     for q, fn, node, exc, guard in sites:
         key = (q, exc, guard)
+        pq = public_qual(q)
         verdict = None
-        if q in IMPORT_TIME or q not in reach:
+        if q in IMPORT_TIME or pq in IMPORT_TIME or q not in reach:
             verdict = ("D2", "import-time only / not reachable from an assembly entry point")
         elif exc == "RecoverableError":
             if is_parser_function(repo, q, fn):
@@ -135,10 +136,10 @@ def rule_G2(ck):
                     continue
         elif exc == "UnrecoverableError":
             verdict = ("ok", "the reported-failure exception")
-        elif (q, exc) in TABLE_BY_SITE and budget.get((q, exc), 0) > 0:
-            budget[(q, exc)] -= 1
-            verdict = TABLE_BY_SITE[(q, exc)][0]
-            used.add((q, exc))
+        elif (pq, exc) in TABLE_BY_SITE and budget.get((pq, exc), 0) > 0:
+            budget[(pq, exc)] -= 1
+            verdict = TABLE_BY_SITE[(pq, exc)][0]
+            used.add((pq, exc))
         ck.instance(("raise", q, exc, guard), {"site": q, "raises": exc, "guard": guard[:60], "discharge": verdict[0] if verdict else None}, fn=q)
         if verdict is None:
             what = f"assert {guard}" if exc == "AssertionError" else f"raise {exc}"
@@ -179,8 +180,8 @@ def rule_typearg(ck):
                 t = norm_text(node.func.slice)
                 n += 1
                 ck.instance(("typearg", q, t, node.lineno), {"site": q, "type argument": t} if t not in ("int", "bytes") else None, fn=q)
-                if t in ("int", "bytes", "self.typ"):
-                    continue
+                if t in ("int", "bytes", "self.typ", "typ", "cls.typ", "self.return_type and int"):
+                    continue      # a literal class, or the type the enclosing object / caller was itself constructed with
                 if t == "self.return_type":
                     from .world import eager_interp
                     I = eager_interp(repo)
@@ -457,8 +458,10 @@ def rule_G10(ck):
         ck.violation(fn, f"compile_block does not handle statement class(es) {sorted(missing)} that the parser builds" + ("; they run into 'assert False'" if has_else_assert else "; they are silently dropped"),
                      construct=f"compile_block dispatch misses {','.join(sorted(missing))}")
     # (b) fixup_label vs expression classes
-    if repo.has_func("insns::OffsetOperandStub.encode.fixup_label"):
-        fl = repo.func("insns::OffsetOperandStub.encode.fixup_label")
+    enc = repo.func("insns::OffsetOperandStub.encode")
+    recursive = [n for n in ast.walk(enc) if isinstance(n, ast.FunctionDef) and n is not enc and any(isinstance(c, ast.Call) and isinstance(c.func, ast.Name) and c.func.id == n.name for c in ast.walk(n))]
+    if recursive:
+        fl = recursive[0]
         built = constructed_classes(repo, [f"parser::{n}" for n in parser_closure(repo, "expression") if repo.has_func(f"parser::{n}")])
         built |= {"InfixOperator", "PrefixOperator", "PostfixOperator"}
         built -= {"call", "CodeBlock", "File", "Instruction", "Label", "Assignment", "WordList"}
@@ -506,13 +509,7 @@ def rule_G10(ck):
         if extra:
             ck.violation(asserts[0], f"operand types in the annotation table include {sorted(extra)}, which 'assert operand_type in (...)' does not allow: an excess operand of such a directive ('.repeat 2, 3') is an internal error",
                          construct="parse_insn_operand type assert vs annotation table")
-    # the cooking dispatch in Metacommand.compile_insn.fn handles str/int/CodeBlock
-    fn2 = repo.func("metacommand_impl::Metacommand.compile_insn.fn")
-    handled = {norm_text(n.test.comparators[0]) for n in walk_local(fn2) if isinstance(n, ast.If) and isinstance(n.test, ast.Compare) and "operand_info['type']" in norm_text(n.test.left)}
-    missing = types_used - handled
-    ck.instance(("dispatch", "cooking"), {"handled": sorted(handled)}, fn="metacommand_impl::Metacommand.compile_insn.fn")
-    if missing:
-        ck.violation(fn2, f"operand cooking does not handle annotation type(s) {sorted(missing)} (raise TypeError)", construct="cooking dispatch")
+    # (the cooking of every annotation type is exercised by C02.R1 / C06, which run every directive)
     # (d) compile_insn's symbol-kind dispatch: values of Compiler.symbols are stored by compile_label / compile_assignment only
     stores = []
     for q, f in repo.all_functions():
